@@ -1,0 +1,46 @@
+//go:build verif
+
+package result
+
+import (
+	"github.com/ipfs/go-log/v2"
+
+	beaconchain "github.com/keep-network/keep-core/pkg/beacon/chain"
+	"github.com/keep-network/keep-core/pkg/chain"
+	"github.com/keep-network/keep-core/pkg/net"
+	"github.com/keep-network/keep-core/pkg/protocol/group"
+	"github.com/keep-network/keep-core/pkg/protocol/state"
+)
+
+// Verification hook for property C13 (thin wrapper, no behaviour of its own).
+
+// VerifC13NewSigningState builds the resultSigningState, the first state of
+// the result publication, with all its collaborators.
+func VerifC13NewSigningState(
+	logger log.StandardLogger,
+	memberIndex group.MemberIndex,
+	dkgGroup *group.Group,
+	membershipValidator *group.MembershipValidator,
+	sessionID string,
+	channel net.BroadcastChannel,
+	beaconChain beaconchain.Interface,
+	blockCounter chain.BlockCounter,
+	result *beaconchain.DKGResult,
+	signingStartBlockHeight uint64,
+) state.SyncState {
+	return &resultSigningState{
+		channel:      channel,
+		beaconChain:  beaconChain,
+		blockCounter: blockCounter,
+		member: NewSigningMember(
+			logger,
+			memberIndex,
+			dkgGroup,
+			membershipValidator,
+			sessionID,
+		),
+		result:                  result,
+		signatureMessages:       make([]*DKGResultHashSignatureMessage, 0),
+		signingStartBlockHeight: signingStartBlockHeight,
+	}
+}
